@@ -20,6 +20,7 @@ type c17Case struct {
 	Linger   string `json:"linger"`   // "" | producer | consumer
 	Rerun    bool   `json:"rerun"`
 	Multi    string `json:"multi,omitempty"` // "" | "os+o" | "os+os": the producer has a second out-port `log` with its own consumer
+	SubDir   bool   `json:"subdir,omitempty"` // the streaming output lies in a directory that does not exist yet
 }
 
 func (c c17Case) desc() (*Desc, map[string]string) {
@@ -42,7 +43,7 @@ func (c c17Case) desc() (*Desc, map[string]string) {
 	prod := fmt.Sprintf(`( (cat {i:in} ; head -c %d /dev/zero | tr '\0' 'x') > {os:out}%s )`, c.Bytes, plinger)
 	cons := fmt.Sprintf(`( cat {i:in} > {o:out}%s )`, clinger)
 	d.Nodes = []Node{{Name: "src", Kind: "filesource", Paths: paths},
-		{Name: "prod", Kind: "proc", Cmd: prod, Outs: map[string]string{"out": "{i:in}.stream"}},
+		{Name: "prod", Kind: "proc", Cmd: prod, Outs: map[string]string{"out": streamPat(c)}},
 		{Name: "cons", Kind: "proc", Cmd: cons, Outs: map[string]string{"out": "{i:in}.copy"}}}
 	d.Edges = []Edge{{From: "src.out", To: "prod.in"}, {From: "prod.out", To: "cons.in"}}
 	if c.Multi != "" {
@@ -58,6 +59,13 @@ func (c c17Case) desc() (*Desc, map[string]string) {
 		d.Edges = append(d.Edges, Edge{From: "prod.log", To: "cons2.in"})
 	}
 	return d, pre
+}
+
+func streamPat(c c17Case) string {
+	if c.SubDir {
+		return "newdir/deeper/{i:in}.stream"
+	}
+	return "{i:in}.stream"
 }
 
 func runC17(ctx *Ctx, c c17Case) {
@@ -77,6 +85,9 @@ func runC17(ctx *Ctx, c c17Case) {
 	}
 	for i := 0; i < c.N; i++ {
 		in := fmt.Sprintf("in%d.txt", i)
+		if c.SubDir {
+			in = "newdir/deeper/" + in // the stream (and the consumer's copy next to it) live below the new directory
+		}
 		want := fmt.Sprintf("seed-%d\n", i) + strings.Repeat("x", c.Bytes)
 		got, ok := readFile(rr.Dir, in+".stream.copy")
 		if !ok || sha(got) != sha(want) {
@@ -168,7 +179,8 @@ func checkC17(ctx *Ctx) {
 	}
 	cases = append(cases, c17Case{N: 1, Bytes: 100, Max: 2, Linger: "producer"}, c17Case{N: 1, Bytes: 100, Max: 2, Linger: "consumer"}, c17Case{N: 2, Bytes: 70000, Max: 4, Rerun: true},
 		// a producer with a streaming and a second (ordinary / streaming) out-port, each with its own consumer
-		c17Case{N: 3, Bytes: 100, Max: 9, Multi: "os+o"}, c17Case{N: 2, Bytes: 70000, Max: 6, Multi: "os+o", Linger: "producer"}, c17Case{N: 2, Bytes: 100, Max: 6, Multi: "os+os"})
+		c17Case{N: 3, Bytes: 100, Max: 9, Multi: "os+o"}, c17Case{N: 2, Bytes: 70000, Max: 6, Multi: "os+o", Linger: "producer"}, c17Case{N: 2, Bytes: 100, Max: 6, Multi: "os+os"},
+		c17Case{N: 2, Bytes: 100, Max: 4, SubDir: true})
 	parallel(len(cases), 4, func(i int) {
 		if ctx.TimeLeft() {
 			runC17(ctx, cases[i])
